@@ -45,44 +45,37 @@ Definition off_region (r : Rect64) (p : pt) (loc : Z) : Prop :=
   (loc = Location_Bottom /\ r_left r <= px p <= r_right r /\ r_top r <= py p /\ r_bottom r < py p) \/
   (loc = Location_Inside /\ r_left r < px p < r_right r /\ r_top r < py p < r_bottom r).
 
-Lemma andb3_false a b c : a && b && c = false -> a = false \/ b = false \/ c = false.
-Proof. destruct a, b, c; cbn; auto. Qed.
+(* The proof does not depend on the order of the tests or of the operands of && in the source: it splits on whatever
+   conditions the translated definition contains and leaves linear arithmetic. *)
+Ltac split_false := repeat match goal with
+  | H : _ && _ = false |- _ => apply andb_false_iff in H; destruct H as [H|H]
+  | H : _ || _ = true |- _ => apply orb_true_iff in H; destruct H as [H|H]
+  | H : _ || _ = false |- _ => apply orb_false_iff in H; destruct H
+  | H : negb _ = true |- _ => apply negb_true_iff in H
+  | H : negb _ = false |- _ => apply negb_false_iff in H
+  end.
+
+Ltac on_side_tac :=
+  first [left; split; [reflexivity|lia] | right; left; split; [reflexivity|lia]
+        | right; right; left; split; [reflexivity|lia] | right; right; right; split; [reflexivity|lia]].
+Ltac off_region_tac :=
+  first [left; split; [reflexivity|lia] | right; left; split; [reflexivity|lia] | right; right; left; split; [reflexivity|lia]
+        | right; right; right; left; split; [reflexivity|lia] | right; right; right; right; split; [reflexivity|lia]].
 
 Theorem location_partition r p l0 onb loc :
   GetLocation r p l0 = (onb, loc) ->
   (onb = false <-> on_boundary r p) /\ (onb = false -> on_side r p loc) /\ (onb = true -> off_region r p loc).
 Proof.
   unfold GetLocation. intros H.
-  destruct ((px p =? r_left r) && (r_top r <=? py p) && (py p <=? r_bottom r)) eqn:E1.
-  { inversion H; subst. b2p.
-    assert (on_side r p Location_Left) as S by (left; repeat split; try assumption; reflexivity).
-    split; [split; [intros _; exists Location_Left; exact S|reflexivity]|split; [intros _; exact S|discriminate]]. }
-  destruct ((px p =? r_right r) && (r_top r <=? py p) && (py p <=? r_bottom r)) eqn:E2.
-  { inversion H; subst. b2p.
-    assert (on_side r p Location_Right) as S by (right; left; repeat split; try assumption; reflexivity).
-    split; [split; [intros _; exists Location_Right; exact S|reflexivity]|split; [intros _; exact S|discriminate]]. }
-  destruct ((py p =? r_top r) && (r_left r <=? px p) && (px p <=? r_right r)) eqn:E3.
-  { inversion H; subst. b2p.
-    assert (on_side r p Location_Top) as S by (right; right; left; repeat split; try assumption; reflexivity).
-    split; [split; [intros _; exists Location_Top; exact S|reflexivity]|split; [intros _; exact S|discriminate]]. }
-  destruct ((py p =? r_bottom r) && (r_left r <=? px p) && (px p <=? r_right r)) eqn:E4.
-  { inversion H; subst. b2p.
-    assert (on_side r p Location_Bottom) as S by (right; right; right; repeat split; try assumption; reflexivity).
-    split; [split; [intros _; exists Location_Bottom; exact S|reflexivity]|split; [intros _; exact S|discriminate]]. }
-  (* not on the boundary *)
-  assert (NB : ~ on_boundary r p).
-  { intros [l [S|[S|[S|S]]]]; destruct S as (_ & Sa & Sb);
-      [apply andb3_false in E1 as [E|[E|E]]|apply andb3_false in E2 as [E|[E|E]]
-      |apply andb3_false in E3 as [E|[E|E]]|apply andb3_false in E4 as [E|[E|E]]]; b2p; lia. }
-  assert (R : onb = true /\ off_region r p loc).
-  { apply andb3_false in E1. apply andb3_false in E2. apply andb3_false in E3. apply andb3_false in E4.
-    destruct (px p <? r_left r) eqn:F1; [inversion H; subst; b2p; split; [reflexivity|left; split; [reflexivity|assumption]]|].
-    destruct (r_right r <? px p) eqn:F2; [inversion H; subst; b2p; split; [reflexivity|right; left; repeat split; try assumption; reflexivity]|].
-    destruct (py p <? r_top r) eqn:F3; [inversion H; subst; b2p; split; [reflexivity|right; right; left; repeat split; try assumption; reflexivity]|].
-    destruct (r_bottom r <? py p) eqn:F4; [inversion H; subst; b2p; split; [reflexivity|right; right; right; left; repeat split; try assumption; reflexivity]|].
-    inversion H; subst. b2p. split; [reflexivity|]. right; right; right; right. split; [reflexivity|].
-    destruct E1 as [E|[E|E]], E2 as [G|[G|G]], E3 as [K|[K|K]], E4 as [M|[M|M]]; b2p; lia. }
-  destruct R as [-> R]. split; [split; [discriminate|intros B; contradiction]|split; [discriminate|intros _; exact R]].
+  repeat match type of H with
+         | (if ?c then _ else _) = _ => let E := fresh "E" in destruct c eqn:E
+         | (let _ := _ in _) = _ => cbv zeta in H
+         end;
+  inversion H; subst; clear H; b2p; split_false; b2p;
+  unfold on_boundary, on_side, off_region, Location_Left, Location_Top, Location_Right, Location_Bottom, Location_Inside;
+  (split; [split; [intros Hb; try discriminate Hb; eexists; on_side_tac
+                  |intros [l [S|[S|[S|S]]]]; try reflexivity; exfalso; lia]
+          |split; [intros Hb; try discriminate Hb; on_side_tac|intros Hb; try discriminate Hb; off_region_tac]]).
 Qed.
 
 (* every point gets one of the five codes *)
@@ -209,6 +202,13 @@ Definition small_pt := RectFloat.small_pt.
 Definition axis_side (p3 p4 : pt) : Prop :=
   (px p3 = px p4 /\ py p3 <> py p4) \/ (py p3 = py p4 /\ px p3 <> px p4).
 
+(* q moved onto the axis-parallel segment a-b: the perpendicular coordinate becomes the segment's, the other one is clamped to
+   the segment's extent *)
+Definition project_on_side (a b q : pt) : pt :=
+  if px a =? px b then (px a, Z.max (Z.min (py a) (py b)) (Z.min (Z.max (py a) (py b)) (py q)))
+  else if py a =? py b then (Z.max (Z.min (px a) (px b)) (Z.min (Z.max (px a) (px b)) (px q)), py a)
+  else q.
+
 Definition proper_cross (p1 p2 p3 p4 : pt) : Prop :=
   cross p1 p3 p4 * cross p2 p3 p4 < 0 /\ cross p3 p1 p2 * cross p4 p1 p2 < 0.
 
@@ -276,7 +276,8 @@ Theorem gsi_on_rect_partial p1 p2 p3 p4 ip q :
   small_pt p1 -> small_pt p2 -> small_pt p3 -> small_pt p4 -> axis_side p3 p4 ->
   GetSegmentIntersection p1 p2 p3 p4 ip = (true, q) ->
   (on_seg q (p3, p4) = true /\ on_seg q (p1, p2) = true /\ (q = p1 \/ q = p2 \/ q = p3 \/ q = p4))
-  \/ (proper_cross p1 p2 p3 p4 /\ GetSegmentIntersectPt_lo p1 p2 p3 p4 ip = (true, q)).
+  \/ (proper_cross p1 p2 p3 p4
+      /\ exists q0, GetSegmentIntersectPt_lo p1 p2 p3 p4 ip = (true, q0) /\ (q = q0 \/ q = project_on_side p3 p4 q0)).
 Proof.
   intros S1 S2 S3 S4 Hax. unfold GetSegmentIntersection. cbv zeta.
   rewrite !feq0_exact, !fgt0_exact by assumption.
@@ -331,7 +332,21 @@ Proof.
   right. split.
   - split; [exact X12|].
     destruct (0 <? cross p3 p1 p2) eqn:A, (0 <? cross p4 p1 p2) eqn:B; cbn in Sg2; try discriminate; b2p; nia.
-  - destruct (GetSegmentIntersectPt_lo p1 p2 p3 p4 ip) as [b q'] eqn:G. inversion H; subst. reflexivity.
+  - (* the computed point: returned as it is (the code as of this writing), or projected onto the side (the repair proposed
+       in triage/C08-ip-onto-side.patch); the script accepts either form of the translated definition *)
+    destruct (GetSegmentIntersectPt_lo p1 p2 p3 p4 ip) as [b q0] eqn:G.
+    first
+    [ inversion H; subst; exists q; split; [reflexivity|left; reflexivity]
+    | destruct b; cbn [negb] in H; [|discriminate H]; exists q0; split; [reflexivity|right];
+      cbv zeta in H;
+      repeat match type of H with (if ?c then _ else _) = _ => let E := fresh "E" in destruct c eqn:E end;
+      inversion H; subst; clear H; b2p;
+      unfold project_on_side, px, py in *; cbn [fst snd] in *;
+      repeat match goal with
+             | |- context [if ?c then _ else _] => let E := fresh "E" in destruct c eqn:E
+             | X : context [if ?c then _ else _] |- _ => let E := fresh "E" in destruct c eqn:E
+             end; b2p;
+      solve [f_equal; lia | exfalso; destruct Hax as [[? ?]|[? ?]]; unfold px, py in *; lia] ].
 Qed.
 
 (* the hypotheses are satisfiable: a proper crossing with the left side of [0,10]^2 and a touching end point *)
